@@ -1274,8 +1274,6 @@ def oracle(text, out, expect_reject=None):
     nlines = text.count("\n") + 1
     if out.startswith("EXC"):
         ty = out.split()[-1]
-        if ty == "RecursionError":
-            return ("c41:recursionerror-deep-use-chain", "parse_string raised RecursionError instead of SchemaError / returning a schema")
         return ("c41:exception-" + ty, "parse_string raised %s (not SchemaError)" % ty)
     if out.startswith("error "):
         w = out.split(" ", 2)
@@ -1559,6 +1557,10 @@ def run(ctx):
                 if b.startswith("EXC"):
                     nrec += 1
                     r = oracle("", b)
+                    if b == "EXC RecursionError" and n >= 900:
+                        # the recorded finding: only chains about as deep as the interpreter's recursion limit
+                        r = ("c41:recursionerror-deep-use-chain",
+                             "parse_string raised RecursionError instead of SchemaError / returning a schema")
                     if first is None or r[0] != "c41:recursionerror-deep-use-chain":
                         first = first or (n, sh)
                         ctx.oracle_failure(r[0], r[1] + " (shape=%s, depth=%d; model: %s)" % (sh, n, a[:40]),
